@@ -34,7 +34,18 @@ check('C13', 'model_checking',
       'TLA+ model checking (TLC) + scenario replay + trace validation of recorded WSGI exchanges',
       'DESIGN.md 3, 4/C13')
 
-PENDING = ['C01', 'C02', 'C03', 'C04', 'C05', 'C06', 'C07', 'C08', 'C09', 'C10', 'C11', 'C12', 'C15', 'C16', 'C17', 'C18']
+check('C09', 'model_checking',
+      'SpyneFault.tla defines the case family (fault class incl. the four dedicated errors and a generated subclass x dotted '
+      'code with 1-4 segments and any first segment x message class x detail tree; six non-Fault exception kinds carrying a '
+      'random secret in text, args, type name and cause) x 8 output families x 2 methods, and the expected client view '
+      '(code, message, detail, status table, generic Server/Internal Error). TLC exports the family, the real objects are '
+      'raised from real user functions behind WsgiApplication, responses are parsed by each family\'s tree reader and TLC '
+      'evaluates the clauses on every (case, observation); the loopback Spyne client decodes the SOAP replies. '
+      'SpynePipeline is model-checked for the status table and for no user code after an input fault.',
+      'TLA+ case table (TLC) + trace validation of observed fault responses + model checking of the pipeline status table',
+      'DESIGN.md 4/C09')
+
+PENDING = ['C01', 'C02', 'C03', 'C04', 'C05', 'C06', 'C07', 'C08', 'C10', 'C11', 'C12', 'C15', 'C16', 'C17', 'C18']
 
 def main():
     import importlib
